@@ -3,6 +3,7 @@ CONSTANTS
   Coords = {0, 15, 204, 1005}
   Ends = {1009, 5000}
   MaxLabels = 2
+  LabelChans = {1, 2}
 INIT Init
 NEXT Next
 INVARIANT Inv_C17
